@@ -2,6 +2,7 @@ package main
 
 import (
 	"bytes"
+	"encoding/hex"
 	"encoding/json"
 	"fmt"
 	"math"
@@ -444,6 +445,10 @@ func makeSampleDir(root string, s, nbytes int, seed uint64, lfsrOnly bool, dupNa
 			name = "样本.six" + ext
 		case s >= 7 && i == 2:
 			name = ".hidden" + ext
+		case s >= 7 && i == 4:
+			name = "caf\xe9_latin1" + ext // bytes that are not valid UTF-8 (file names are byte strings)
+		case s >= 7 && i == 1:
+			name = "\xd1\xf9\xb1\xbe_gbk" + ext
 		}
 		if dupNames && i%5 == 4 && i > 0 {
 			name = fmt.Sprintf("sample_%03d%s", i-1, map[bool]string{true: ".dat", false: ".bin"}[(i-1)%3 == 2])
@@ -532,7 +537,7 @@ func runC13(c *ev.Ctx) {
 		_ = os.WriteFile(ovJSON, b, 0o644)
 		type job struct {
 			Scale   string   `json:"scale"`
-			Files   []string `json:"files"`
+			Files   []string `json:"files"` // hex-encoded: file names are byte strings, JSON strings are not
 			Workers int      `json:"workers"`
 			Out     string   `json:"out"`
 		}
@@ -546,6 +551,9 @@ func runC13(c *ev.Ctx) {
 					fl = append(fl, ps...)
 				}
 				sort.Strings(fl)
+				for k := range fl {
+					fl[k] = hex.EncodeToString([]byte(fl[k]))
+				}
 				jobs = append(jobs, job{scale, fl, workers, filepath.Join(ovDir, fmt.Sprintf("%s-%s-%d.csv", tag, scale, len(jobs)))})
 				dirs = append(dirs, d)
 			}
@@ -967,7 +975,7 @@ func runC20(c *ev.Ctx) {
 		return
 	}
 	haveStrace := straceOK()
-	outs := []string{"", "out2e4", "./a/b/c", "ABS", "pre", "trail/", "my%20data%20set", "sp ace/näme-测试", "50%/25%d", "x/../y//z", "-dash", "SYMREL", "SYMABS"}
+	outs := []string{"", "out2e4", "./a/b/c", "ABS", "pre", "trail/", "my%20data%20set", "sp ace/näme-测试", "50%/25%d", "x/../y//z", "-dash", "SYMREL", "SYMABS", "donn\xe9es_latin1", "\xca\xfd\xbe\xdd/gbk"}
 	var cases []c20Case
 	r := gen.NewRng(gen.Mix(seed, 2020))
 	ss := []int{1, 2, 3, 17, 64, 300}
